@@ -307,6 +307,19 @@ void quad_case(const Q& q, Out& o) {
         } else {
             auto s = mk(x, q);
             if (!m.throws) { check_reads<T>(s, m, x, before, q, o); const_slice_t<T> cs(s); check_reads<T>(cs, m, x, before, q, o); }
+            if (!m.throws) {
+                // the slice read back into the array it was taken from: z = z.slice(...) must leave exactly the designated elements
+                base_array<T> z(x);
+                z = mk(z, q);
+                std::vector<T> want;
+                for (int k : m.idx) want.push_back(before[size_t(k)]);
+                if (!equal_arr(z, want)) o.fail("slice:read-back-into-own-array", fmt("%s: x = x.slice(...) gives %s, model %s", q.str().c_str(), show(vec_of(z)).c_str(), show(want).c_str()));
+                const base_array<T>& cz0 = x;
+                base_array<T> z2(x);
+                z2 = mk(static_cast<const base_array<T>&>(z2), q);
+                if (!equal_arr(z2, want)) o.fail("slice:read-back-into-own-array:const", fmt("%s: x = const x.slice(...) gives %s, model %s", q.str().c_str(), show(vec_of(z2)).c_str(), show(want).c_str()));
+                (void)cz0;
+            }
         }
     } catch (const std::exception& e) { threw = true; what = e.what(); }
     if (threw != m.throws) {
